@@ -46,6 +46,9 @@ pub enum Prog {
     /// the consumer half shared by two threads: one polls is_real_file_ready (with yields), one
     /// waits in len(); both must come back once the producer is done
     TwoConsumers,
+    /// the producer offers all its chunks at once through `write_vectored` and advances by the count
+    /// reported (what `write_all_vectored` does); consumer: switch; await_real_file
+    VectoredProducer,
     /// the producer fails (panics) after its last write, so its writer half is dropped while the
     /// thread unwinds: the consumer still gets the bytes written until then and is not left waiting
     PanickingProducer,
@@ -206,6 +209,34 @@ fn one_execution(s: &Scen) {
             record_outcome(&d1.calls);
             h.join().unwrap();
         }
+        Prog::VectoredProducer => {
+            let (mut buf, writer) = TempFileBuffer::<Dest>::new(s.inmemory);
+            let c = chunks.clone();
+            let h = loom::thread::spawn(move || {
+                let mut w = writer;
+                let flat: Vec<u8> = c.iter().flatten().cloned().collect();
+                let mut done = 0usize;
+                while done < flat.len() {
+                    let mut slices = vec![];
+                    let mut off = 0usize;
+                    for ch in &c {
+                        let end = off + ch.len();
+                        if end > done {
+                            slices.push(std::io::IoSlice::new(&flat[done.max(off)..end]));
+                        }
+                        off = end;
+                    }
+                    let n = w.write_vectored(&slices).expect("write_vectored failed");
+                    assert!(n > 0 && done + n <= flat.len(), "write_vectored reported {} bytes of {} offered", n, flat.len() - done);
+                    done += n;
+                }
+            });
+            buf.switch(Dest::new(s.short_dest));
+            let d = buf.await_real_file();
+            assert_eq!(d.data, all, "vectored producer: destination bytes differ from the bytes written");
+            record_outcome(&d.calls);
+            h.join().unwrap();
+        }
         Prog::PanickingProducer => {
             let (mut buf, writer) = TempFileBuffer::<Dest>::new(s.inmemory);
             let c = chunks.clone();
@@ -319,7 +350,7 @@ fn one_execution(s: &Scen) {
                     assert_eq!(len, all.len() as u64, "len() = {} but {} bytes were written", len, all.len());
                     record_outcome(&[len as usize]);
                 }
-                Prog::Nested { .. } | Prog::NestedSwitch { .. } | Prog::Successive { .. } | Prog::TwoConsumers | Prog::PanickingProducer => unreachable!(),
+                Prog::Nested { .. } | Prog::NestedSwitch { .. } | Prog::Successive { .. } | Prog::TwoConsumers | Prog::PanickingProducer | Prog::VectoredProducer => unreachable!(),
             }
             h.join().unwrap();
         }
@@ -403,6 +434,19 @@ impl Check for C12 {
                             });
                         }
                     }
+                }
+            }
+            // staged lengths that are multiples of 4 KiB up to 128 KiB (256 KiB thorough), one write:
+            // whatever piece size a copy of the staged bytes uses, a whole number of pieces is among them
+            for k in 1..=(if quick { 32usize } else { 64 }) {
+                for prog in [Prog::SwitchAwait, Prog::LenClosedWrite] {
+                    v.push(Scen { writes: vec![4096 * k], flush_after: None, inmemory, prog, bufwriter: false, preemption_bound: Some(2), short_dest: false, interrupt_dest: false });
+                }
+            }
+            // a producer that writes through write_vectored
+            for h in hist.iter().filter(|h| h.len() == 2 || (h.len() == 3 && !quick)) {
+                for short_dest in [false, true] {
+                    v.push(Scen { writes: h.clone(), flush_after: None, inmemory, prog: Prog::VectoredProducer, bufwriter: false, preemption_bound: None, short_dest, interrupt_dest: false });
                 }
             }
             // a producer that fails after its last write
